@@ -366,10 +366,16 @@ def fixtures(rnd, n_random):
         nr = rnd.randint(3, 6)
         npl = rnd.randint(1, 3)
         rows = []
+        zero, nan = [], []
         for r in range(nr):
-            rows.append((rnd.randrange(3), [c(rnd.randrange(4), rnd.randrange(4)) for _ in range(ar)], rnd.randrange(npl + 1), r + 1))
-        zero = [v for v in range(1, nr + 1) if rnd.random() < 0.15]
-        nan = [v for v in range(1, nr + 1) if v not in zero and rnd.random() < 0.1]
+            # value tokens identify bit patterns: every 0.0 row shares one token, every NaN row another
+            u = rnd.random()
+            v = 50 if u < 0.15 else (60 if u < 0.25 else r + 1)
+            if v == 50 and 50 not in zero:
+                zero.append(50)
+            if v == 60 and 60 not in nan:
+                nan.append(60)
+            rows.append((rnd.randrange(3), [c(rnd.randrange(4), rnd.randrange(4)) for _ in range(ar)], rnd.randrange(npl + 1), v))
         obs = [p for p in range(npl + 1) if rnd.random() < 0.3]
         fs.append(Fixture(rows, obs, rnd.choice([0, 1, 2, 3, 9]), *rnd.choice([(1, 2), (1, 4), (1, 1), (3, 4)]), zero=zero, nan=nan,
                           pools=i, name="random-%d" % i))
